@@ -1,4 +1,5 @@
 import TwistedProps.C44.Roundtrip
+import TwistedProps.C44.Gen
 /-!
 C44 — Banana encoding round-trips and enforces its limits.
 
@@ -29,6 +30,10 @@ Hypotheses, all decidable and all forced by the code:
     string whose length needs more digits than the limit is sent but refused by the peer
     (run on the real code by the tie: corpus case `lim = 2`, 16384 bytes).  The default is 64.
   * floats are their 64-bit pattern; `struct.pack/unpack("!d")` is trusted to be `be64/unbe64`.
+
+`gen_*`: `int2b128` and `b1282int` are regenerated from banana.py on every run (`Generated.Banana`,
+harness/py2lean.py: the `while integer:` loop as a recursive function, the for-loop as a fold) and proved equal to
+the model's (`TwistedProps/C44/Gen.lean`).
 -/
 namespace TwistedProps.C44
 open Twisted.Spread.Banana
@@ -48,6 +53,26 @@ theorem b128_digits (n k : Nat) (hk : 1 ≤ k) (h : n < 2 ^ (k * 7)) :
   simpa [low] using int2b128_low n d hd
 
 example : (int2b128 (2 ^ 448 - 1)).length ≤ 64 := (b128_digits _ 64 (by decide) (by decide)).1
+
+/-! ### the translator-regenerated `int2b128` / `b1282int` (see `TwistedProps/C44/Gen.lean`) -/
+
+/-- `int2b128` as regenerated from banana.py (the bytes handed to `stream`) = the model's, for every `n ≥ 0` -/
+theorem gen_int2b128 (n : Nat) : Generated.Banana.int2b128 (n : Int) = .ok (int2b128 n) := gen_int2b128_eq n
+
+/-- `b1282int` as regenerated from banana.py = the model's, on every byte string -/
+theorem gen_b1282int (st : Bytes) : Generated.Banana.b1282int st = b1282int st := gen_b1282int_eq st
+
+/-- **b1282int ∘ int2b128 over the regenerated code**: for every `n ≥ 0` the translated encoder succeeds and the
+    translated decoder returns `n` -/
+theorem gen_b128_roundtrip (n : Nat) :
+    ∃ enc, Generated.Banana.int2b128 (n : Int) = .ok enc ∧ Generated.Banana.b1282int enc = n :=
+  ⟨int2b128 n, gen_int2b128_eq n, by rw [gen_b1282int_eq, b1282int_int2b128]⟩
+
+example : (match Generated.Banana.int2b128 ((300 : Nat) : Int) with | .ok b => b == [44, 2] | _ => false) = true
+    ∧ Generated.Banana.b1282int [44, 2] = 300 := by
+  constructor
+  · rw [gen_int2b128]; simp [int2b128, digits]
+  · rw [gen_b1282int]; simp [b1282int, b1282intGo]
 
 /-! ## the assertion in `dataReceived` is dead code (after the repair) -/
 
